@@ -219,9 +219,12 @@ Pre(a) == Struct(a) /\ (a.op \notin {"CreateTable", "RenameTable"} => DataOK(a, 
 \* ---------------------------------------------------------------- crispness
 InUniqueKey(c) == c \in Range(pk) \/ \E x \in idx : x.uniq /\ c \in Range(x.cols)
 SecIdxCols == UNION {Range(x.cols) : x \in idx}
-\* Statements that TRIGGER a recorded defect of the in-memory backend which corrupts the table's secondary
-\* indexes silently (the damage shows statements later, in many shapes) are not generated at random; each has
-\* a finding with a witness behaviour that is replayed on every run (known_findings.jsonl, findings/C21-*):
+\* Statements that TRIGGER a recorded, still OPEN defect of the in-memory backend which corrupts the table's
+\* secondary indexes silently (the damage shows statements later, in many shapes) are not generated at random
+\* (Steered); each trigger class has a finding with a witness behaviour that is replayed on every run
+\* (known_findings.jsonl, findings/C21-*).  All five classes below were repaired in /repo (findings `fixed`), so
+\* Steered is empty and every one of these shapes is drawn at random again; a class goes back into Steered
+\* only while its finding is open:
 \*   K1  RENAME TABLE of a table with secondary indexes            (C21-rename-table-corrupts-secondary-indexes)
 \*   K2  MODIFY / RENAME of a primary-key column, secondary indexes (C21-modify-pk-column-corrupts-index-pk-ordinals)
 \*   K4  DROP PRIMARY KEY of a table with secondary indexes         (C21-drop-pk-leaves-stale-index-key-columns)
@@ -244,16 +247,19 @@ TriggerId(a) ==
                                 /\ idx # {} /\ \E c \in SecIdxCols \cup Range(pk) : PosOf(cols, c) >= AtOf(cols, a)
                              THEN "K5" ELSE ""
     [] OTHER -> ""
-KnownTrigger(a) == TriggerId(a) # ""
+BlindKeysOpen == FALSE             \* TRUE while DML-collation-blind-keys (C13/C14) is open
+CompositeRenameOpen == FALSE       \* TRUE while C43-rename-primary-key-column-corrupts-key is open
+Steered == {}                      \* the trigger classes (K1..K6) whose finding is still open
+KnownTrigger(a) == TriggerId(a) \in Steered
 Crisp(a) ==
-  /\ \* keys over _ai_ci columns: the in-memory editor compares them byte-wise (recorded under C13/C14);
-     \* the specification commits only where the byte-wise and the collation-aware outcome agree
-     (Struct(a) /\ a.op \notin {"CreateTable", "RenameTable"}) => (DataOK(a, TRUE) <=> DataOK(a, FALSE))
+  /\ \* keys over _ai_ci columns are compared under the column collation (the byte-wise comparison recorded under
+     \* C13/C14 was repaired: statements whose outcome depends on it are generated again)
+     (BlindKeysOpen /\ Struct(a) /\ a.op \notin {"CreateTable", "RenameTable"}) => (DataOK(a, TRUE) <=> DataOK(a, FALSE))
   /\ ~KnownTrigger(a)
   /\ CASE a.op = "AddColumn" -> a.t = tname => Len(cols) < MaxCols
        [] a.op = "Insert" -> Len(rows) < MaxRows                                          \* bound of the model only
        [] a.op = "DropColumn" -> (a.t = tname /\ HasCol(cols, a.c)) => (~InUniqueKey(a.c) /\ Len(cols) > 1)   \* recorded under C43
-       [] a.op = "RenameColumn" -> (a.t = tname /\ HasCol(cols, a.c)) => ~(a.c \in Range(pk) /\ Len(pk) > 1)   \* recorded under C43
+       [] a.op = "RenameColumn" -> (CompositeRenameOpen /\ a.t = tname /\ HasCol(cols, a.c)) => ~(a.c \in Range(pk) /\ Len(pk) > 1)   \* recorded under C43 (repaired)
        [] a.op \in {"ModifyColumn", "ChangeCollation"} ->
             (a.t = tname /\ HasCol(cols, a.col.name)) => ((a.col.name \in Range(pk) => a.col.nn) /\ a.after # a.col.name)
        [] OTHER -> TRUE
@@ -266,9 +272,14 @@ Tags(a) ==
          (IF a.uniq THEN <<"uniq">> ELSE <<>>)
          \o (IF Struct(a) /\ \E j \in DOMAIN a.cols : PosOf(cols, a.cols[j]) # j THEN <<"shifted">> ELSE <<>>)
     [] a.op \in {"ModifyColumn", "ChangeCollation"} ->
-         IF Struct(a) /\ ~ModOK(a)
-            /\ \A i \in DOMAIN rows : ConvLenient(rows[i][PosOf(cols, a.col.name)], cols[PosOf(cols, a.col.name)].ty, a.col.ty).ok
-         THEN <<"emptystr">> ELSE <<>>
+         (IF Struct(a) /\ ~ModOK(a)
+             /\ \A i \in DOMAIN rows : ConvLenient(rows[i][PosOf(cols, a.col.name)], cols[PosOf(cols, a.col.name)].ty, a.col.ty).ok
+          THEN <<"emptystr">> ELSE <<>>)
+         \* the statement must fail ONLY because a primary / unique key would hold duplicates afterwards; "inplace" = no
+         \* reordering and no NULL -> NOT NULL (the engine then edits the table in place instead of rewriting it)
+         \o (IF Struct(a) /\ ModOK(a) /\ (LET n == Eff(a) IN NotNullOK(n.cols, n.rows) /\ ~KeysOK(n.cols, n.pk, n.idx, n.rows, FALSE))
+             THEN <<IF a.pos = "last" /\ ~(~cols[PosOf(cols, a.col.name)].nn /\ a.col.nn) THEN "inplace" ELSE "rewrite", "keydup">>
+             ELSE <<>>)
     [] a.op = "DropColumn" ->
          IF Struct(a) /\ idx # {} /\ \E c \in Range(pk) : PosOf(cols, c) > PosOf(cols, a.c) THEN <<"hasidx", "beforepk">> ELSE <<>>
     [] OTHER -> <<>>
@@ -309,7 +320,7 @@ Ops == {"Insert", "AddColumn", "DropColumn", "RenameColumn", "ModifyColumn", "Ch
 
 Init == tname = "" /\ cols = <<>> /\ pk = <<>> /\ idx = {} /\ rows = <<>> /\ act = [op |-> "init"] /\ ret = "none" /\ step = 0 /\ taint = {}
 
-\* taint: the recorded index-corrupting triggers (K1..K6) executed in this behaviour; always {} in generated
+\* taint: the STEERED index-corrupting triggers (K1..K6) executed in this behaviour; always {} in generated
 \* behaviours (Crisp excludes the triggers), non-empty only in the scripted witness behaviours (MC_SchemaChange)
 Apply(a) ==
   /\ act' = a /\ step' = step + 1
